@@ -818,7 +818,7 @@ inline N fbody(const std::string &name, const std::vector<N> &a)
 }
 
 // ------------------------------------------------------------------ the evaluator
-static const int MAXD = 3;
+static const int MAXD = 4;
 
 template <class N, int Depth>
 struct Ev;
